@@ -92,7 +92,7 @@ def cases(tier, seed):
     out = []
     n = len(pool())
     for i in range(n):
-        out.append({"name": "proxy.ops/value#%d" % i, "kind": "ops", "vi": i, "gen": 20 if tier == "quick" else 400})
+        out.append({"name": "proxy.ops/value#%d" % i, "kind": "ops", "vi": i, "gen": 20 if tier == "quick" else 20000})
     for st in ("failed", "later", "timeout", "timeout0"):
         out.append({"name": "proxy.state/%s" % st, "kind": "state", "state": st})
     out.append({"name": "proxy.pending/nonblocking", "kind": "pending"})
